@@ -1,9 +1,9 @@
 ---- MODULE MC_both ----
 EXTENDS MC
 \* a rule (d) that needs BOTH targets of a two-target rule whose targets change independently (sel), and a rule downstream of it (e):
-\* two in-edges from one producing rule
-mcOrd == <<"d", "e", "s1", "s2", "t1", "t2">>
-mcMenu == << << Rl(<<"d">>, <<"t1", "t2">>, "fn", "c2"), Rl(<<"e">>, <<"d">>, "fn", "c3"), Rl(<<"t1", "t2">>, <<"s1", "s2">>, "sel", "c1") >> >>
-mcInit == << <<"s1", "S0">>, <<"s2", "S0">> >>
-mcScriptBoth == << <<"build", "">>, <<"edit", "s2", "S1">>, <<"build", "">>, <<"edit", "s1", "S1">>, <<"build", "e">>, <<"edit", "s2", "S0">>, <<"build", "">>, <<"clean", "d">>, <<"edit", "s1", "S0">>, <<"build", "">> >>
+\* two in-edges from one producing rule; e has a source of its own, so that its command can run in a build in which d must be rebuilt
+mcOrd == <<"d", "e", "s1", "s2", "s3", "t1", "t2">>
+mcMenu == << << Rl(<<"d">>, <<"t1", "t2">>, "fn", "c2"), Rl(<<"e">>, <<"d", "s3">>, "fn", "c3"), Rl(<<"t1", "t2">>, <<"s1", "s2">>, "sel", "c1") >> >>
+mcInit == << <<"s1", "S0">>, <<"s2", "S0">>, <<"s3", "S0">> >>
+mcScriptBoth == << <<"build", "">>, <<"edit", "s2", "S1">>, <<"edit", "s3", "S1">>, <<"build", "">>, <<"edit", "s1", "S1">>, <<"build", "e">>, <<"edit", "s2", "S0">>, <<"build", "">>, <<"clean", "d">>, <<"edit", "s1", "S0">>, <<"build", "">> >>
 ====
